@@ -709,8 +709,24 @@ def helper_bin(name):
     return p
 
 
+def guard_disk(min_free_gb=25, older_than_min=30):
+    """Scratch copies have fresh paths, so every run adds to the Go build cache (about 0.3 GB). When the disk runs low, cache
+    entries not used for `older_than_min` minutes are removed; the go command treats a missing entry as a miss, so this is safe
+    while other builds are running. Nothing is removed while there is room."""
+    try:
+        cache = os.environ.get("GOCACHE") or os.path.expanduser("~/.cache/go-build")
+        st = os.statvfs(cache if os.path.isdir(cache) else "/")
+        if st.f_bavail * st.f_frsize >= min_free_gb * (1 << 30) or not os.path.isdir(cache):
+            return
+        subprocess.run(["find", cache, "-type", "f", "-mmin", "+%d" % older_than_min, "!", "-name", "README", "!", "-name", "trim.txt", "-delete"],
+                       stdout=subprocess.DEVNULL, stderr=subprocess.DEVNULL, timeout=1800)
+    except Exception:
+        pass
+
+
 def main_wrapper(prop, level, body):
     """Common CLI: python3 -m vlib.cXX --tier quick|thorough"""
+    guard_disk()
     import argparse
     ap = argparse.ArgumentParser()
     ap.add_argument("--tier", default=os.environ.get("VERIF_TIER", "quick"), choices=["quick", "thorough"])
@@ -728,6 +744,7 @@ def main_wrapper(prop, level, body):
         rc = 2
     finally:
         ctx.cleanup()
+        guard_disk()
     sys.exit(rc)
 
 
